@@ -9,11 +9,13 @@ def run(ctx):
     ctx.rule = ("model: all scenarios of <=2/3 client records and <=3 backend records with body lengths {0,2}, every cut offset and kind, "
                 "caller buffers {1,3,100}, every write split; implementation: seeded random scenarios with real records (lengths 0..16640, "
                 "oversize headers, a real retried hello, HRR/SH/malformed SH), random transport chunking incl. 1 byte at a time, buffers 1..70000, "
-                "random write splits, cut (EOF/error) at a random offset; distinct = distinct scenario; non-trivial = at least one record after the hello")
+                "random write splits, cut (EOF/error) at a random offset, in a third of the scenarios one expired read deadline at a random offset or record boundary; distinct = distinct scenario; non-trivial = at least one record after the hello")
     ctx.assumptions = ["write-side transport faults (short writes) are not generated", "contents are compared by the harness against the stream "
                        "positions the specification prescribes (field m / wok of each event)"]
     if not ctx.replay:
         ctx.mc("MCEchPipe", "MCEchPipe_rq.cfg", timeout=1200)
+        # ... and with one transient transport error (an expired read deadline the caller extends) at every byte offset
+        ctx.mc("MCEchPipe", "MCEchPipe_rqt.cfg" if ctx.quick else "MCEchPipe_rtt.cfg", timeout=3000)
         ctx.mc("MCEchPipe", "MCEchPipe_wq.cfg" if ctx.quick else "MCEchPipe_w.cfg", timeout=1200)
         if not ctx.quick:
             ctx.mc("MCEchPipe", "MCEchPipe_rl.cfg", timeout=3000)     # liveness: a persistent reader gets everything
